@@ -509,7 +509,7 @@ inductive IterAt (root : Node) : Iter → List (Path × Entry) → Prop
       IterAt root it root.entriesP
   | at (it : Iter) (rq : List Dir) (h0 : root.sub rq.reverse ≠ .nil) (h1 : it.cur = some rq.reverse)
       (h2 : it.next = nxt root rq.reverse) : IterAt root it (rest root rq)
-  | done (it : Iter) (h : it.next = none) : IterAt root it []
+  | done (it : Iter) (h0 : it.cur = none) (h : it.next = none) : IterAt root it []
 
 theorem entriesAt_root (root : Node) : entriesAt root [] = root.entriesP := by
   simp [entriesAt, Node.sub]
@@ -554,7 +554,7 @@ theorem iterLoop_at (root : Node) (it : Iter) (mem : Mem) (todo : List (Path × 
       rw [show iterFuel root - resumeMu root rq + resumeMu root rq = iterFuel root by
         unfold iterFuel; omega] at this
       exact this
-  | done h => rw [h, iterLoop_none]; rfl
+  | done h0 h => rw [h, iterLoop_none]; rfl
 
 /-- after a yield the iterator stands at the yielded node, and what is still to come is the tail -/
 theorem iterAt_tail (root : Node) (it : Iter) (mem : Mem) (q : Path) (e : Entry) (tl : List (Path × Entry))
@@ -585,7 +585,7 @@ theorem iterAt_tail (root : Node) (it : Iter) (mem : Mem) (q : Path) (e : Entry)
             simpa using this
           have := sibs_split root rq.reverse c dd l m r hn Hsub [.L, .M, .R] (Or.inr ⟨.L, rfl⟩) q e tl1 hs
           simpa using this
-    | done h => cases hx
+    | done h0 h => cases hx
   refine ⟨key.1, ?_⟩
   rw [key.2]
   apply IterAt.at
@@ -594,7 +594,7 @@ theorem iterAt_tail (root : Node) (it : Iter) (mem : Mem) (q : Path) (e : Entry)
   · simp [yieldRes]
 
 theorem iterAt_end (root : Node) (it : Iter) (mem : Mem) : IterAt root (endRes it mem).it [] :=
-  IterAt.done _ rfl
+  IterAt.done _ rfl rfl
 
 theorem iterNext_at (t : Table) (it : Iter) (mem : Mem) (todo : List (Path × Entry))
     (h : IterAt t.root it todo) (hadv : it.adv = false) :
@@ -638,4 +638,598 @@ theorem iterAll_eq (t : Table) (mem : Mem) : iterAll t mem = (t.root.entries.map
   unfold iterAll
   rw [iterAllLoop_at t _ _ mem _ (iterInit_at t) rfl (by rw [entriesP_length]; have := marked_le_nodes t.root; omega)]
   rw [entriesP_map_snd]
+
+/-! ### removal through the iterator -/
+
+/-- `remove_eow_node` never creates a node -/
+theorem sub_remAt_nil (t : Node) (p q : Path) (mem : Mem) (h : t.sub q = .nil) :
+    (t.remAt p mem).node.sub q = .nil := by
+  induction t generalizing p q with
+  | nil => simp only [Node.remAt]; exact h
+  | node c d l m r ihl ihm ihr =>
+    cases q with
+    | nil => simp [Node.sub] at h
+    | cons dq q =>
+      have hnil : ∀ x : Path, Node.nil.sub x = .nil := by intro x; cases x <;> rfl
+      cases p with
+      | nil =>
+        simp only [Node.remAt]
+        cases d with
+        | none => exact h
+        | some e => simp only []; split; · exact hnil _
+                    · exact h
+      | cons dp p =>
+        cases dp <;> simp only [Node.remAt]
+        · rcases rebuild_cases c d (l.remAt p mem).node m r (l.remAt p mem) with g | g <;> rw [g.1]
+          · exact hnil _
+          · cases dq <;> simp only [Node.sub] at h ⊢
+            · exact ihl p q h
+            · exact h
+            · exact h
+        · rcases rebuild_cases c d l (m.remAt p mem).node r (m.remAt p mem) with g | g <;> rw [g.1]
+          · exact hnil _
+          · cases dq <;> simp only [Node.sub] at h ⊢
+            · exact h
+            · exact ihm p q h
+            · exact h
+        · rcases rebuild_cases c d l m (r.remAt p mem).node (r.remAt p mem) with g | g <;> rw [g.1]
+          · exact hnil _
+          · cases dq <;> simp only [Node.sub] at h ⊢
+            · exact h
+            · exact h
+            · exact ihr p q h
+
+/-- pruning only touches the removed node and its ancestors: every existing node whose address is not
+a prefix of `p` keeps its whole subtree -/
+theorem sub_remAt_other (t : Node) (p q : Path) (mem : Mem) (hq : t.sub q ≠ .nil) (hpre : ¬ q <+: p) :
+    (t.remAt p mem).node.sub q = t.sub q := by
+  induction t generalizing p q with
+  | nil => cases q <;> simp [Node.sub] at hq
+  | node c d l m r ihl ihm ihr =>
+    cases q with
+    | nil => exact absurd List.nil_prefix hpre
+    | cons dq q =>
+      have hnil : ∀ x : Path, Node.nil.sub x = .nil := by intro x; cases x <;> rfl
+      cases p with
+      | nil =>
+        simp only [Node.remAt]
+        cases d with
+        | none => rfl
+        | some e =>
+          simp only []; split
+          · rename_i hn
+            simp only [Bool.and_eq_true, Node.isNil_iff] at hn
+            obtain ⟨⟨h1, h2⟩, h3⟩ := hn; subst h1 h2 h3
+            cases dq <;> simp only [Node.sub] at hq <;> exact absurd (hnil q) hq
+          · cases dq <;> rfl
+      | cons dp p =>
+        have key : ∀ (child : Node) (ih : ∀ (p q : Path), child.sub q ≠ .nil → ¬ q <+: p →
+              (child.remAt p mem).node.sub q = child.sub q) (same : dq = dp) (hc : child.sub q ≠ .nil),
+              (child.remAt p mem).node.sub q = child.sub q ∧ (child.remAt p mem).node ≠ .nil := by
+          intro child ih same hc
+          have hpre' : ¬ q <+: p := by
+            intro hp; apply hpre; subst same
+            exact (List.cons_prefix_cons).mpr ⟨rfl, hp⟩
+          have := ih p q hc hpre'
+          refine ⟨this, ?_⟩
+          intro hn; rw [hn, hnil] at this; exact hc this.symm
+        cases dp <;> simp only [Node.remAt]
+        · rcases rebuild_cases c d (l.remAt p mem).node m r (l.remAt p mem) with g | g <;> rw [g.1]
+          · obtain ⟨_, _, _, _, g2, g3, g4, _⟩ := g
+            subst g3 g4
+            cases dq <;> simp only [Node.sub] at hq ⊢
+            · have := key l ihl rfl hq; exact absurd g2 this.2
+            · exact absurd (hnil q) hq
+            · exact absurd (hnil q) hq
+          · cases dq <;> simp only [Node.sub] at hq ⊢
+            exact (key l ihl rfl hq).1
+        · rcases rebuild_cases c d l (m.remAt p mem).node r (m.remAt p mem) with g | g <;> rw [g.1]
+          · obtain ⟨_, _, _, _, g2, g3, g4, _⟩ := g
+            subst g2 g4
+            cases dq <;> simp only [Node.sub] at hq ⊢
+            · exact absurd (hnil q) hq
+            · have := key m ihm rfl hq; exact absurd g3 this.2
+            · exact absurd (hnil q) hq
+          · cases dq <;> simp only [Node.sub] at hq ⊢
+            exact (key m ihm rfl hq).1
+        · rcases rebuild_cases c d l m (r.remAt p mem).node (r.remAt p mem) with g | g <;> rw [g.1]
+          · obtain ⟨_, _, _, _, g2, g3, g4, _⟩ := g
+            subst g2 g3
+            cases dq <;> simp only [Node.sub] at hq ⊢
+            · exact absurd (hnil q) hq
+            · exact absurd (hnil q) hq
+            · have := key r ihr rfl hq; exact absurd g4 this.2
+          · cases dq <;> simp only [Node.sub] at hq ⊢
+            exact (key r ihr rfl hq).1
+
+theorem sibs_all_split (root : Node) (p : Path) (d : Dir) :
+    ∃ pre, sibsEntries root p [.L, .M, .R] = pre ++ entriesAt root (p ++ [d]) ++ sibsEntries root p (later d) := by
+  cases d
+  · exact ⟨[], by simp [sibsEntries, later]⟩
+  · exact ⟨entriesAt root (p ++ [.L]), by simp [sibsEntries, later]⟩
+  · exact ⟨entriesAt root (p ++ [.L]) ++ entriesAt root (p ++ [.M]), by simp [sibsEntries, later]⟩
+
+/-- every marked node splits the enumeration below `p`: something before it, the node, then `rest` -/
+theorem entriesAt_split (root : Node) (x : Path) : ∀ (p : Path) (e : Entry),
+    (root.sub (p ++ x)).data? = some e →
+    ∃ pre, entriesAt root p ++ above root p.reverse = pre ++ (p ++ x, e) :: rest root (p ++ x).reverse := by
+  induction x with
+  | nil =>
+    intro p e h
+    rw [List.append_nil] at h ⊢
+    cases hn : root.sub p with
+    | nil => rw [hn] at h; simp [Node.data?] at h
+    | node c dd l m r =>
+      rw [hn] at h; simp only [Node.data?] at h; subst h
+      refine ⟨[], ?_⟩
+      rw [entriesAt_node root p c _ l m r hn]
+      simp [rest]
+  | cons d x ih =>
+    intro p e h
+    have hp : p ++ d :: x = (p ++ [d]) ++ x := by simp
+    rw [hp] at h ⊢
+    obtain ⟨pre, hpre⟩ := ih (p ++ [d]) e h
+    cases hn : root.sub p with
+    | nil =>
+      rw [sub_append, sub_append, hn] at h
+      have hnil : ∀ y : Path, Node.nil.sub y = .nil := by intro y; cases y <;> rfl
+      rw [hnil, hnil] at h; simp [Node.data?] at h
+    | node c dd l m r =>
+      obtain ⟨pre2, hpre2⟩ := sibs_all_split root p d
+      rw [entriesAt_node root p c dd l m r hn, hpre2]
+      have hab : above root (p ++ [d]).reverse = sibsEntries root p (later d) ++ above root p.reverse := by
+        simp [above]
+      rw [hab] at hpre
+      refine ⟨(match dd with | some e => [(p, e)] | none => []) ++ pre2 ++ pre, ?_⟩
+      simp only [List.append_assoc] at hpre ⊢
+      rw [hpre]
+
+theorem entriesP_split (root : Node) (q : Path) (e : Entry) (h : (root.sub q).data? = some e) :
+    ∃ pre, root.entriesP = pre ++ (q, e) :: rest root q.reverse := by
+  have := entriesAt_split root q [] e (by simpa using h)
+  simpa [entriesAt_root, above] using this
+
+/-- node addresses in the enumeration are pairwise distinct -/
+theorem entriesP_distinct (t : Node) : t.entriesP.Pairwise (fun a b => a.1 ≠ b.1) := by
+  induction t with
+  | nil => simp [Node.entriesP]
+  | node c d l m r ihl ihm ihr =>
+    simp only [Node.entriesP, List.pairwise_append, List.mem_append, List.mem_map]
+    refine ⟨⟨⟨?_, ?_, ?_⟩, ?_, ?_⟩, ?_, ?_⟩
+    · cases d <;> simp
+    · exact List.pairwise_map.mpr (ihl.imp (by intro a b h; simpa using h))
+    · intro a ha b ⟨y, _, hb⟩; subst hb; cases d <;> simp at ha; subst ha; simp
+    · exact List.pairwise_map.mpr (ihm.imp (by intro a b h; simpa using h))
+    · intro a ha b ⟨y, _, hb⟩; subst hb
+      rcases ha with ha | ⟨z, _, ha⟩
+      · cases d <;> simp at ha; subst ha; simp
+      · subst ha; simp
+    · exact List.pairwise_map.mpr (ihr.imp (by intro a b h; simpa using h))
+    · intro a ha b ⟨y, _, hb⟩; subst hb
+      rcases ha with (ha | ⟨z, _, ha⟩) | ⟨z, _, ha⟩
+      · cases d <;> simp at ha; subst ha; simp
+      · subst ha; simp
+      · subst ha; simp
+
+/-- in a list with pairwise distinct keys the split at a key is unique -/
+theorem split_unique {α β : Type} (l : List (α × β)) (h : l.Pairwise (fun a b => a.1 ≠ b.1)) :
+    ∀ (A A' B B' : List (α × β)) (x x' : α × β), l = A ++ x :: B → l = A' ++ x' :: B' → x.1 = x'.1 →
+      A = A' ∧ x = x' ∧ B = B' := by
+  intro A
+  induction A generalizing l with
+  | nil =>
+    intro A' B B' x x' h1 h2 hx
+    cases A' with
+    | nil => rw [h1] at h2; simp at h2; exact ⟨rfl, h2.1, h2.2⟩
+    | cons a A' =>
+      rw [h1] at h2; simp at h2
+      obtain ⟨h3, h4⟩ := h2
+      subst h3
+      rw [h1, h4] at h
+      have := (List.pairwise_cons.mp h).1 x' (by simp)
+      exact absurd hx this
+  | cons a A ih =>
+    intro A' B B' x x' h1 h2 hx
+    cases A' with
+    | nil =>
+      rw [h1] at h2; simp at h2
+      obtain ⟨h3, h4⟩ := h2
+      subst h3
+      rw [h1] at h
+      have := (List.pairwise_cons.mp h).1 x (by simp)
+      exact absurd hx.symm this
+    | cons a' A' =>
+      rw [h1] at h2; simp at h2
+      obtain ⟨h3, h4⟩ := h2
+      subst h3
+      rw [h1] at h
+      have := ih (A ++ x :: B) (List.pairwise_cons.mp h).2 A' B B' x x' rfl h4 hx
+      exact ⟨by rw [this.1], this.2.1, this.2.2⟩
+
+theorem filter_selfEntry (d : Option Entry) (q : Path) (hq : q ≠ []) :
+    ((match d with | some e => [(([] : Path), e)] | none => []) : List (Path × Entry)).filter
+      (fun x => x.1 != q) = (match d with | some e => [([], e)] | none => []) := by
+  cases d with
+  | none => simp
+  | some e => simp; exact fun h => hq h
+
+/-- **`remove_eow_node` removes exactly one entry from the enumeration**; no other node moves -/
+theorem entriesP_remAt (t : Node) (p : Path) (mem : Mem) (e : Entry) (hd : (t.sub p).data? = some e) :
+    (t.remAt p mem).node.entriesP = t.entriesP.filter (fun x => x.1 != p) := by
+  induction t generalizing p with
+  | nil => cases p <;> simp [Node.sub, Node.data?] at hd
+  | node c d l m r ihl ihm ihr =>
+    have fl : ∀ (dir : Dir) (xs : List (Path × Entry)) (p : Path),
+        (xs.map fun x => (dir :: x.1, x.2)).filter (fun x => x.1 != dir :: p) =
+          (xs.filter (fun x => x.1 != p)).map fun x => (dir :: x.1, x.2) := by
+      intro dir xs p
+      rw [List.filter_map]
+      congr 1
+      apply List.filter_congr
+      intro x _
+      rw [Bool.eq_iff_iff]; simp
+    have fo : ∀ (dir dir' : Dir) (xs : List (Path × Entry)) (p : Path), dir ≠ dir' →
+        (xs.map fun x => (dir :: x.1, x.2)).filter (fun x => x.1 != dir' :: p) =
+          xs.map fun x => (dir :: x.1, x.2) := by
+      intro dir dir' xs p hne
+      apply List.filter_eq_self.mpr
+      intro a ha
+      obtain ⟨y, _, hy⟩ := List.mem_map.mp ha
+      subst hy; simp [hne]
+    cases p with
+    | nil =>
+      simp only [Node.sub, Node.data?] at hd; subst hd
+      simp only [Node.remAt]
+      have hrest : ∀ (dir : Dir) (xs : List (Path × Entry)),
+          (xs.map fun x => (dir :: x.1, x.2)).filter (fun x => x.1 != []) = xs.map fun x => (dir :: x.1, x.2) := by
+        intro dir xs
+        apply List.filter_eq_self.mpr
+        intro a ha
+        obtain ⟨y, _, hy⟩ := List.mem_map.mp ha
+        subst hy; simp
+      split
+      · rename_i hn
+        simp only [Bool.and_eq_true, Node.isNil_iff] at hn
+        obtain ⟨⟨h1, h2⟩, h3⟩ := hn; subst h1 h2 h3
+        simp [Node.entriesP]
+      · simp [Node.entriesP, List.filter_append, hrest]
+    | cons dir p =>
+      cases dir <;> simp only [Node.sub] at hd <;> simp only [Node.remAt]
+      · have ih := ihl p hd
+        rcases rebuild_cases c d (l.remAt p mem).node m r (l.remAt p mem) with g | g <;> rw [g.1]
+        · obtain ⟨_, _, _, _, g2, g3, g4, g5⟩ := g
+          subst g3 g4 g5
+          rw [g2] at ih
+          simp only [Node.entriesP, List.filter_append, fl, ← ih]
+          simp
+        · simp only [Node.entriesP, List.filter_append, fl, ← ih,
+            fo .M .L _ p (by decide), fo .R .L _ p (by decide)]
+          cases d <;> simp
+      · have ih := ihm p hd
+        rcases rebuild_cases c d l (m.remAt p mem).node r (m.remAt p mem) with g | g <;> rw [g.1]
+        · obtain ⟨_, _, _, _, g2, g3, g4, g5⟩ := g
+          subst g2 g4 g5
+          rw [g3] at ih
+          simp only [Node.entriesP, List.filter_append, fl, ← ih]
+          simp
+        · simp only [Node.entriesP, List.filter_append, fl, ← ih,
+            fo .L .M _ p (by decide), fo .R .M _ p (by decide)]
+          cases d <;> simp
+      · have ih := ihr p hd
+        rcases rebuild_cases c d l m (r.remAt p mem).node (r.remAt p mem) with g | g <;> rw [g.1]
+        · obtain ⟨_, _, _, _, g2, g3, g4, g5⟩ := g
+          subst g2 g3 g5
+          rw [g4] at ih
+          simp only [Node.entriesP, List.filter_append, fl, ← ih]
+          simp
+        · simp only [Node.entriesP, List.filter_append, fl, ← ih,
+            fo .L .R _ p (by decide), fo .M .R _ p (by decide)]
+          cases d <;> simp
+
+theorem mem_sibsEntries (root : Node) (p : Path) (ds : List Dir) (x : Path × Entry)
+    (h : x ∈ sibsEntries root p ds) : ∃ d ∈ ds, ∃ y, x.1 = p ++ d :: y := by
+  simp only [sibsEntries, List.mem_flatMap, entriesAt, List.mem_map] at h
+  obtain ⟨d, hd, y, _, hy⟩ := h
+  exact ⟨d, hd, y.1, by rw [← hy]; simp⟩
+
+theorem later_ne (d d' : Dir) (h : d' ∈ later d) : d' ≠ d := by
+  cases d <;> cases d' <;> simp [later] at h ⊢
+
+theorem above_not_prefix (root : Node) : ∀ (rq : List Dir) (x : Path × Entry), x ∈ above root rq →
+    ∀ sfx, ¬ x.1 <+: rq.reverse ++ sfx := by
+  intro rq
+  induction rq with
+  | nil => intro x hx; simp [above] at hx
+  | cons d rq ih =>
+    intro x hx sfx hp
+    simp only [above, List.mem_append] at hx
+    rcases hx with hx | hx
+    · obtain ⟨d', hd', y, hy⟩ := mem_sibsEntries root _ _ x hx
+      rw [hy, List.reverse_cons, List.append_assoc] at hp
+      have := (List.prefix_append_right_inj _).mp hp
+      simp only [List.singleton_append, List.cons_prefix_cons] at this
+      exact later_ne d d' hd' this.1
+    · apply ih x hx ([d] ++ sfx)
+      simpa [List.append_assoc] using hp
+
+theorem rest_not_prefix (root : Node) (rp : List Dir) (x : Path × Entry) (hx : x ∈ rest root rp) :
+    ¬ x.1 <+: rp.reverse := by
+  simp only [rest, List.mem_append] at hx
+  rcases hx with hx | hx
+  · obtain ⟨d, _, y, hy⟩ := mem_sibsEntries root _ _ x hx
+    intro hp
+    have := hp.length_le
+    rw [hy] at this; simp at this; omega
+  · have := above_not_prefix root rp x hx []
+    simpa using this
+
+theorem nxt_congr (root root' : Node) (q : Path) (h : root'.sub q = root.sub q) : nxt root' q = nxt root q := by
+  simp [nxt, h]
+
+/-- removing the element of a distinct-key list: everything else stays, in order -/
+theorem filter_split {α β : Type} [BEq α] [LawfulBEq α] (pre post : List (α × β)) (x : α × β)
+    (h : (pre ++ x :: post).Pairwise (fun a b => a.1 ≠ b.1)) :
+    (pre ++ x :: post).filter (fun y => y.1 != x.1) = pre ++ post := by
+  rw [List.pairwise_append] at h
+  obtain ⟨_, h2, h3⟩ := h
+  rw [List.filter_append]
+  have e1 : pre.filter (fun y => y.1 != x.1) = pre := by
+    apply List.filter_eq_self.mpr
+    intro a ha; simpa using h3 a ha x (by simp)
+  have e2 : (x :: post).filter (fun y => y.1 != x.1) = post := by
+    simp only [List.filter_cons, bne_self_eq_false, Bool.false_eq_true, if_false]
+    apply List.filter_eq_self.mpr
+    intro a ha
+    have := (List.pairwise_cons.mp h2).1 a ha
+    simpa using fun h => this h.symm
+  rw [e1, e2]
+
+/-- the iterator state including the `advanced_on_remove` mode; `todo` is what the following calls of
+`iter_next` will yield, in order -/
+def IterOk (root : Node) (it : Iter) (todo : List (Path × Entry)) : Prop :=
+  (it.adv = false ∧ IterAt root it todo) ∨
+  (it.adv = true ∧
+    match todo with
+    | [] => it.nextStat = .iterEnd ∧ it.cur = none ∧ it.next = none
+    | x :: tl => it.nextStat = .ok ∧ (root.sub x.1).data? = some x.2 ∧ it.cur = some x.1 ∧
+        IterAt root { it with adv := false } tl)
+
+/-- what was yielded last and may be removed now -/
+def Iter.lastYield (it : Iter) : Option Path := if it.adv then none else it.cur
+
+/-- **`iter_next`** (in either mode) yields the head of `todo`, or reports the end when nothing is left;
+it neither allocates nor faults -/
+theorem iterNext_ok (t : Table) (it : Iter) (mem : Mem) (todo : List (Path × Entry)) (h : IterOk t.root it todo) :
+    (iterNext t it mem).mem = mem ∧ (iterNext t it mem).it.adv = false ∧
+    match todo with
+    | [] => (iterNext t it mem).st = .iterEnd ∧ (iterNext t it mem).out = none ∧
+        IterOk t.root (iterNext t it mem).it [] ∧ (iterNext t it mem).it.cur = none
+    | x :: tl => (iterNext t it mem).st = .ok ∧ (iterNext t it mem).out = some x.2 ∧
+        IterOk t.root (iterNext t it mem).it tl ∧ (iterNext t it mem).it.cur = some x.1 := by
+  rcases h with ⟨hadv, hat⟩ | ⟨hadv, hm⟩
+  · rw [iterNext_at t it mem todo hat hadv]
+    cases todo with
+    | nil => exact ⟨rfl, hadv, rfl, rfl, Or.inl ⟨hadv, IterAt.done _ rfl rfl⟩, rfl⟩
+    | cons x tl =>
+      obtain ⟨q, e⟩ := x
+      have ht := iterAt_tail t.root it mem q e tl hat
+      exact ⟨rfl, hadv, rfl, rfl, Or.inl ⟨hadv, ht.2⟩, rfl⟩
+  · cases todo with
+    | nil =>
+      obtain ⟨h1, h2, h3⟩ := hm
+      have e : iterNext t it mem = ⟨.iterEnd, none, { it with adv := false }, mem⟩ := by
+        simp [iterNext, hadv, h1]
+      rw [e]
+      exact ⟨rfl, rfl, rfl, rfl, Or.inl ⟨rfl, IterAt.done _ h2 h3⟩, h2⟩
+    | cons x tl =>
+      obtain ⟨h1, h2, h3, h4⟩ := hm
+      have hnn : (t.root.sub x.1).isNil = false := by
+        cases hs : t.root.sub x.1 with
+        | nil => rw [hs] at h2; simp [Node.data?] at h2
+        | node _ _ _ _ _ => rfl
+      have e : iterNext t it mem = ⟨.ok, some x.2, { it with adv := false }, mem⟩ := by
+        simp [iterNext, hadv, h1, h3, hnn, h2]
+      rw [e]
+      exact ⟨rfl, rfl, rfl, rfl, Or.inl ⟨rfl, h4⟩, h3⟩
+
+/-- **`iter_remove`** removes exactly the entry yielded last, releases its blocks, and the following
+`iter_next` calls go on with exactly the entries that were still to come: nothing is skipped,
+nothing is yielded twice, although the removed node and its empty ancestors are gone. -/
+theorem iterRemove_ok (t : Table) (it : Iter) (wantOut : Bool) (mem : Mem) (todo : List (Path × Entry))
+    (p : Path) (e : Entry) (hat : IterAt t.root it todo) (hadv : it.adv = false) (hcur : it.cur = some p)
+    (hd : (t.root.sub p).data? = some e) :
+    (iterRemove t it wantOut mem).1 = .ok ∧ (iterRemove t it wantOut mem).2.1 = some e.2 ∧
+    (iterRemove t it wantOut mem).2.2.1 = ⟨decSize t.size, (t.root.remAt p mem).node⟩ ∧
+    (iterRemove t it wantOut mem).2.2.2.2 = (t.root.remAt p mem).mem ∧
+    (t.root.remAt p mem).node.entriesP = t.root.entriesP.filter (fun x => x.1 != p) ∧
+    IterOk (t.root.remAt p mem).node (iterRemove t it wantOut mem).2.2.2.1 todo := by
+  -- where the iterator stands
+  have htodo : todo = rest t.root p.reverse := by
+    cases hat with
+    | init h1 h2 => rw [h1] at hcur; cases hcur
+    | «at» rq h0 h1 h2 => rw [h1] at hcur; simp at hcur; rw [← hcur]; simp
+    | done h0 h => rw [h0] at hcur; cases hcur
+  have hfil := entriesP_remAt t.root p mem e hd
+  have hnext := iterNext_at t it mem todo hat hadv
+  have hnm : (resOf t.root it mem todo (endRes it mem)).mem = mem := by cases todo <;> rfl
+  have hrem : iterRemove t it wantOut mem = (.ok, some e.2, ⟨decSize t.size, (t.root.remAt p mem).node⟩,
+      { (resOf t.root it mem todo (endRes it mem)).it with
+          adv := true, nextStat := (resOf t.root it mem todo (endRes it mem)).st },
+      (t.root.remAt p mem).mem) := by
+    unfold iterRemove
+    simp only [hcur, hd]
+    have : (if wantOut = true then mem.check (some e).isSome else mem) = mem := by cases wantOut <;> simp
+    rw [this, hnext, hnm]; rfl
+  rw [hrem]
+  refine ⟨rfl, rfl, rfl, rfl, hfil, ?_⟩
+  · simp only []
+    cases todo with
+    | nil =>
+      right
+      exact ⟨rfl, rfl, rfl, rfl⟩
+    | cons x tl =>
+      obtain ⟨q, eq⟩ := x
+      right
+      have ht := iterAt_tail t.root it mem q eq tl hat
+      have htl : tl = rest t.root q.reverse := by
+        have := ht.2
+        simp only [yieldRes] at this
+        cases this with
+        | init h1 h2 => simp at h1
+        | «at» rq h0 h1 h2 => simp at h1; rw [h1]; simp
+        | done h0 h => simp at h0
+      have hnp : ¬ q <+: p := by
+        have := rest_not_prefix t.root p.reverse (q, eq) (by rw [← htodo]; simp)
+        simpa using this
+      have hqn : t.root.sub q ≠ .nil := by
+        intro hn; have := ht.1; rw [hn] at this; simp [Node.data?] at this
+      have hsub := sub_remAt_other t.root p q mem hqn hnp
+      -- the enumeration of the pruned tree
+      obtain ⟨pre, hpre⟩ := entriesP_split t.root p e hd
+      rw [← htodo] at hpre
+      have hdist := entriesP_distinct t.root
+      have hE' : (t.root.remAt p mem).node.entriesP = pre ++ (q, eq) :: tl := by
+        rw [hfil, hpre]
+        have := filter_split pre ((q, eq) :: tl) (p, e) (by rw [← hpre]; exact hdist)
+        simpa using this
+      obtain ⟨pre', hpre'⟩ := entriesP_split (t.root.remAt p mem).node q eq (by rw [hsub]; exact ht.1)
+      have huniq := split_unique _ (entriesP_distinct (t.root.remAt p mem).node) pre pre' tl _ (q, eq) (q, eq)
+        hE' hpre' rfl
+      refine ⟨rfl, rfl, by rw [hsub]; exact ht.1, rfl, ?_⟩
+      rw [huniq.2.2]
+      apply IterAt.at
+      · rw [List.reverse_reverse, hsub]; exact hqn
+      · simp [resOf, yieldRes]
+      · simp only [List.reverse_reverse, resOf, yieldRes]; exact (nxt_congr _ _ q hsub).symm
+
+/-- `iter_remove` before the first `iter_next`, after the end of the iteration: `CC_ERR_KEY_NOT_FOUND`,
+nothing changes (C16) -/
+theorem iterRemove_inert (t : Table) (it : Iter) (wantOut : Bool) (mem : Mem) (h : it.cur = none) :
+    iterRemove t it wantOut mem = (.errKeyNotFound, none, t, it, mem) := by
+  simp [iterRemove, h]
+
+/-! ### tying node addresses to keys -/
+
+variable {cmp : Cmp}
+
+theorem findPath_of_mem_entriesP (hc : CmpLaw cmp) (t : Node) (ho : t.Ordered cmp) :
+    ∀ p e, (p, e) ∈ t.entriesP → ∃ k, (k, e) ∈ t.entries ∧ t.findPath cmp k = some p := by
+  induction t with
+  | nil => intro p e h; simp [Node.entriesP] at h
+  | node c d l m r ihl ihm ihr =>
+    obtain ⟨hl, hr, ol, om, or⟩ := ho
+    intro p e h
+    simp only [Node.entriesP, List.mem_append, List.mem_map] at h
+    rcases h with ((h | ⟨y, hy, h⟩) | ⟨y, hy, h⟩) | ⟨y, hy, h⟩
+    · cases d with
+      | none => simp at h
+      | some e0 =>
+        simp at h; obtain ⟨h1, h2⟩ := h; subst h1 h2
+        exact ⟨[c], by simp [Node.entries], by simp [Node.findPath, hc.refl]⟩
+    · simp only [Prod.mk.injEq] at h; obtain ⟨h1, h2⟩ := h; subst h1 h2
+      obtain ⟨k, hk, hf⟩ := ihl ol y.1 y.2 hy
+      obtain ⟨a, as, h1, h2⟩ := entries_head l _ hk
+      simp only at h1; subst h1
+      refine ⟨a :: as, by simp [Node.entries, hk], ?_⟩
+      simp [Node.findPath, hl a h2, hf]
+    · simp only [Prod.mk.injEq] at h; obtain ⟨h1, h2⟩ := h; subst h1 h2
+      obtain ⟨k, hk, hf⟩ := ihm om y.1 y.2 hy
+      obtain ⟨a, as, h1, h2⟩ := entries_head m _ hk
+      simp only at h1; subst h1
+      refine ⟨c :: a :: as, ?_, ?_⟩
+      · simp only [Node.entries, List.mem_append, List.mem_map]
+        exact Or.inl (Or.inr ⟨(a :: as, y.2), hk, rfl⟩)
+      · simp [Node.findPath, hc.refl, hf]
+    · simp only [Prod.mk.injEq] at h; obtain ⟨h1, h2⟩ := h; subst h1 h2
+      obtain ⟨k, hk, hf⟩ := ihr or y.1 y.2 hy
+      obtain ⟨a, as, h1, h2⟩ := entries_head r _ hk
+      simp only at h1; subst h1
+      refine ⟨a :: as, by simp [Node.entries, hk], ?_⟩
+      simp [Node.findPath, hr a h2, hf]
+
+theorem mem_entriesP_of_data (t : Node) (p : Path) (e : Entry) (h : (t.sub p).data? = some e) :
+    (p, e) ∈ t.entriesP := by
+  obtain ⟨pre, hpre⟩ := entriesP_split t p e h
+  rw [hpre]; simp
+
+/-- the entry stored at a node is found by descending with its own key -/
+theorem findPath_of_data (hc : CmpLaw cmp) (t : Node) (ho : t.Ordered cmp) (hko : t.KeysOk)
+    (p : Path) (e : Entry) (h : (t.sub p).data? = some e) : e.1 ≠ [] ∧ t.findPath cmp e.1 = some p := by
+  obtain ⟨k, hk, hf⟩ := findPath_of_mem_entriesP hc t ho p e (mem_entriesP_of_data t p e h)
+  have := hko _ hk
+  simp only at this
+  rw [this]
+  exact ⟨entries_key_ne_nil t _ hk, hf⟩
+
+theorem IterAt.suffix {root : Node} {it : Iter} {todo : List (Path × Entry)} (h : IterAt root it todo)
+    (hm : ∀ p, it.cur = some p → ∃ e, (root.sub p).data? = some e) :
+    ∃ pre, root.entriesP = pre ++ todo := by
+  cases h with
+  | init h1 h2 => exact ⟨[], rfl⟩
+  | «at» rq h0 h1 h2 =>
+    obtain ⟨e, he⟩ := hm _ h1
+    obtain ⟨pre, hpre⟩ := entriesP_split root rq.reverse e he
+    exact ⟨pre ++ [(rq.reverse, e)], by rw [hpre]; simp⟩
+  | done h0 h => exact ⟨root.entriesP, by simp⟩
+
+/-- the iterator stands at a *marked* node or nowhere -/
+def Iter.curMarked (root : Node) (it : Iter) : Prop := ∀ p, it.cur = some p → ∃ e, (root.sub p).data? = some e
+
+theorem IterOk.suffix {root : Node} {it : Iter} {todo : List (Path × Entry)} (h : IterOk root it todo)
+    (hm : it.curMarked root) : ∃ pre, root.entriesP = pre ++ todo := by
+  rcases h with ⟨_, hat⟩ | ⟨_, hmm⟩
+  · exact hat.suffix hm
+  · cases todo with
+    | nil => exact ⟨root.entriesP, by simp⟩
+    | cons x tl =>
+      obtain ⟨h1, h2, h3, h4⟩ := hmm
+      have h5 : tl = rest root x.1.reverse := by
+        cases h4 with
+        | init g1 g2 => simp [h3] at g1
+        | «at» rq g0 g1 g2 => simp [h3] at g1; rw [g1]; simp
+        | done g0 g => simp [h3] at g0
+      obtain ⟨pre, hpre⟩ := entriesP_split root x.1 x.2 h2
+      exact ⟨pre, by rw [hpre, h5]⟩
+
+theorem IterOk.head_data {root : Node} {it : Iter} {x : Path × Entry} {tl : List (Path × Entry)} (mem : Mem)
+    (h : IterOk root it (x :: tl)) : (root.sub x.1).data? = some x.2 := by
+  rcases h with ⟨_, hat⟩ | ⟨_, hmm⟩
+  · exact (iterAt_tail root it mem x.1 x.2 tl hat).1
+  · exact hmm.2.1
+
+/-- **`iter_remove` at the level of the map**: the key yielded last is removed, nothing else; the
+invariant, the ledger and the iterator position survive -/
+theorem Table.iterRemove_spec (hc : CmpLaw cmp) (t : Table) (it : Iter) (wantOut : Bool) (mem : Mem)
+    (todo : List (Path × Entry)) (p : Path) (e : Entry) (hg : t.Good cmp) (hl : t.Owns mem)
+    (hat : IterAt t.root it todo) (hadv : it.adv = false) (hcur : it.cur = some p)
+    (hd : (t.root.sub p).data? = some e) :
+    (iterRemove t it wantOut mem).1 = .ok ∧ (iterRemove t it wantOut mem).2.1 = some e.2 ∧
+    (iterRemove t it wantOut mem).2.2.1.Good cmp ∧
+    (∀ k, (iterRemove t it wantOut mem).2.2.1.abs.get k = (t.abs.remove e.1).get k) ∧
+    (iterRemove t it wantOut mem).2.2.1.Owns (iterRemove t it wantOut mem).2.2.2.2 ∧
+    (iterRemove t it wantOut mem).2.2.2.2.live + t.root.owned =
+      mem.live + (iterRemove t it wantOut mem).2.2.1.root.owned ∧
+    (iterRemove t it wantOut mem).2.2.2.2.fault = mem.fault ∧
+    IterOk (iterRemove t it wantOut mem).2.2.1.root (iterRemove t it wantOut mem).2.2.2.1 todo ∧
+    (iterRemove t it wantOut mem).2.2.2.1.adv = true := by
+  obtain ⟨⟨hs, hp, ho⟩, hko⟩ := hg
+  obtain ⟨h1, h2, h3, h4, h5, h6⟩ := iterRemove_ok t it wantOut mem todo p e hat hadv hcur hd
+  obtain ⟨hk, hf⟩ := findPath_of_data hc t.root ho hko p e hd
+  have q := remAt_spec t.root p mem e hd (by unfold Table.Owns at hl; omega)
+  obtain ⟨q1, q2, q3, q4, q5, q6⟩ := q
+  have ho' := ordered_remAt (cmp := cmp) t.root p mem ho
+  have hko' := keysOk_remAt hc t.root e.1 p mem e hk hf hd ho hko
+  have hadv' : (iterRemove t it wantOut mem).2.2.2.1.adv = true := by
+    simp [iterRemove, hcur]
+  rw [h3, h4] at *
+  refine ⟨h1, h2, ⟨⟨?_, pruned_remAt _ _ _ hp, ho'⟩, hko'⟩, ?_, ?_, q3, q4, h6, hadv'⟩
+  · simp only [decSize]; rw [hs]; split <;> omega
+  · intro k
+    rw [abs_get hc _ ho' hko', SpecLemmas.get_remove, abs_get hc t ho hko]
+    by_cases hk0 : k = []
+    · subst hk0; simp
+    · simp only [hk0, if_false]
+      rw [lookup_remAt hc t.root e.1 k p mem e hk hk0 hf hd]
+      split <;> simp
+  · unfold Table.Owns at hl ⊢; simp only; omega
 end CC.TST
